@@ -108,6 +108,9 @@ func (p *MP4ChunkParser) GetBuffer() []byte {
 	return p.buf
 }
 
+// maxGrowStep limits how far the buffer grows beyond the bytes that have been read.
+const maxGrowStep = 1 << 20
+
 // readUntil reads from the reader until the contentEnd is reached.
 // The buffer is resized as needed.
 func (p *MP4ChunkParser) readUntil(contentEnd int) error {
@@ -115,12 +118,17 @@ func (p *MP4ChunkParser) readUntil(contentEnd int) error {
 		return nil
 	}
 	for {
-		if contentEnd > len(p.buf) {
+		// Do not allocate more than maxGrowStep ahead of the data that has arrived: a box size is only a claim.
+		readEnd := contentEnd
+		if readEnd-p.contentEnd > maxGrowStep {
+			readEnd = p.contentEnd + maxGrowStep
+		}
+		if readEnd > len(p.buf) {
 			// Resize buffer
-			newBuf := make([]byte, contentEnd-len(p.buf)+1024)
+			newBuf := make([]byte, readEnd-len(p.buf)+1024)
 			p.buf = append(p.buf, newBuf...)
 		}
-		n, err := p.r.Read(p.buf[p.contentEnd:contentEnd])
+		n, err := p.r.Read(p.buf[p.contentEnd:readEnd])
 		p.contentEnd += n
 		if p.contentEnd >= contentEnd {
 			// The requested bytes are there. An error delivered together with them (typically io.EOF)
